@@ -207,6 +207,7 @@ impl Case {
                     Strategy::Uniform => add(cs, "strategy_uniform", 1),
                     Strategy::Pct { .. } => add(cs, "strategy_pct", 1),
                     Strategy::Burst { .. } => add(cs, "strategy_burst", 1),
+                    Strategy::AfterWrite { .. } => add(cs, "strategy_after_write", 1),
                     Strategy::Stall { .. } => add(cs, "strategy_stall", 1),
                     Strategy::Replay => add(cs, "strategy_replay", 1),
                 }
